@@ -1,1 +1,212 @@
-fn main() { println!("mssim"); }
+use std::time::Instant;
+
+use mssim::props;
+use mssim::runner::*;
+
+fn usage() -> ! {
+    eprintln!("usage: mssim check <PROP> [--tier quick|thorough] [--runs N] [--workers N] [--cfg normal|fault_free|corruption]\n       mssim replay <file>\n       mssim determinism <PROP> [--runs N]\n       mssim show <PROP> <run>");
+    std::process::exit(2)
+}
+
+fn arg_val(args: &[String], name: &str) -> Option<String> { args.iter().position(|a| a == name).and_then(|i| args.get(i + 1).cloned()) }
+
+fn main() {
+    let args: Vec<String> = std::env::args().collect();
+    if args.len() < 2 {
+        usage();
+    }
+    let seed: u64 = std::env::var("VERIF_SEED").ok().and_then(|s| s.parse().ok()).unwrap_or(1);
+    let workers: usize = arg_val(&args, "--workers").and_then(|s| s.parse().ok()).unwrap_or_else(|| std::thread::available_parallelism().map(|n| n.get()).unwrap_or(4));
+    // library panics are caught by monitors; keep stderr quiet
+    std::panic::set_hook(Box::new(|_| {}));
+    match args[1].as_str() {
+        "check" => {
+            let prop = args.get(2).cloned().unwrap_or_else(|| usage());
+            let tier = arg_val(&args, "--tier").or_else(|| std::env::var("VERIF_TIER").ok()).unwrap_or_else(|| "quick".into());
+            let code = check_engine_a(&prop, &tier, seed, workers, &args);
+            std::process::exit(code);
+        }
+        "selftest" => match mssim::vm_selftest::run_selftests() {
+            Ok(n) => {
+                println!("R1 self-tests: {} vectors passed", n);
+                std::process::exit(0);
+            }
+            Err(f) => {
+                for l in f {
+                    println!("R1 SELF-TEST FAILED: {}", l);
+                }
+                std::process::exit(2);
+            }
+        },
+        "replay" => {
+            let path = args.get(2).cloned().unwrap_or_else(|| usage());
+            match replay_file(&path, None) {
+                Ok((prop, Some(v), class)) => {
+                    println!("replayed: property={} invariant={} class={} actor={} t={} seq={}\n  {}", prop, v.inv, v.class, v.actor, v.time, v.seq, v.detail);
+                    if v.class == class {
+                        println!("VIOLATION property={} replay={}", prop, path);
+                        std::process::exit(1);
+                    }
+                    println!("replay produced a different violation class than recorded ({})", class);
+                    std::process::exit(1);
+                }
+                Ok((prop, None, _)) => {
+                    println!("replay of {} for {} produced no violation", path, prop);
+                    std::process::exit(0);
+                }
+                Err(e) => {
+                    eprintln!("replay error: {}", e);
+                    std::process::exit(2);
+                }
+            }
+        }
+        "determinism" => {
+            let prop = args.get(2).cloned().unwrap_or_else(|| usage());
+            let runs: u64 = arg_val(&args, "--runs").and_then(|s| s.parse().ok()).unwrap_or(2000);
+            let mut digests = vec![];
+            for w in [1usize, workers, workers] {
+                let cfg = ExploreCfg { seed, prop: prop.clone(), runs, workers: w, bias: props::bias_for(&prop, "normal"), mon: props::mon_for(&prop), first_run: 0, keep_going: true };
+                let (agg, _, _) = explore(&cfg, &[]);
+                println!("workers={} runs={} digest={:016x}", w, agg.runs, agg.digest);
+                digests.push(agg.digest);
+            }
+            if digests.iter().all(|d| *d == digests[0]) {
+                println!("DETERMINISM OK");
+                std::process::exit(0);
+            }
+            println!("DETERMINISM FAILED");
+            std::process::exit(2);
+        }
+        "show" => {
+            let prop = args.get(2).cloned().unwrap_or_else(|| usage());
+            let run: u64 = args.get(3).and_then(|s| s.parse().ok()).unwrap_or(0);
+            let o = run_one(seed, &prop, run, &props::bias_for(&prop, &arg_val(&args, "--cfg").unwrap_or("normal".into())), &props::mon_for(&prop), true);
+            println!("{}", serde_json::to_string_pretty(&o.scenario.to_json()).unwrap());
+            for l in &o.result.log {
+                println!("{}", l);
+            }
+            println!("stats: events={} blocks={} attempts={} epochs={} confirmed={} fin_ok={} fin_err={} probes={:?}", o.result.stats.events, o.result.stats.blocks, o.result.stats.attempts, o.result.stats.epochs, o.result.stats.confirmed, o.result.stats.finalize_ok, o.result.stats.finalize_err, o.result.stats.probes);
+            for v in &o.result.violations {
+                println!("VIOLATION {} {} {}: {}", v.prop, v.inv, v.class, v.detail);
+            }
+            println!("harness errors: {:?}", o.result.harness_errors);
+        }
+        _ => usage(),
+    }
+}
+
+fn check_engine_a(prop: &str, tier: &str, seed: u64, workers: usize, args: &[String]) -> i32 {
+    if !props::ENGINE_A_PROPS.contains(&prop) {
+        eprintln!("property {} is not served by engine A", prop);
+        return 2;
+    }
+    let t0 = Instant::now();
+    let known = load_known_findings();
+    let runs: u64 = arg_val(args, "--runs").and_then(|s| s.parse().ok()).unwrap_or_else(|| props::runs_for(prop, tier));
+    let cfgs: Vec<&str> = match arg_val(args, "--cfg") {
+        Some(c) => vec![Box::leak(c.into_boxed_str())],
+        None => vec!["normal", "fault_free", "corruption"],
+    };
+    let mut total = Agg::default();
+    let mut exit = 0;
+    let mut n_viol = 0u64;
+    let mut known_all = std::collections::BTreeMap::new();
+    let mut per_cfg = serde_json::Map::new();
+    for (ci, cfgname) in cfgs.iter().enumerate() {
+        let share = match *cfgname {
+            "normal" => runs * 7 / 10,
+            "fault_free" => runs * 2 / 10,
+            _ => runs / 10,
+        };
+        let share = if cfgs.len() == 1 { runs } else { share.max(1) };
+        let mut mon = props::mon_for(prop);
+        mon.corruption = *cfgname == "corruption";
+        let cfg = ExploreCfg { seed, prop: prop.to_string(), runs: share, workers, bias: props::bias_for(prop, cfgname), mon: mon.clone(), first_run: (ci as u64) * 10_000_000, keep_going: false };
+        let (agg, found, known_hits) = explore(&cfg, &known);
+        per_cfg.insert(cfgname.to_string(), serde_json::json!({"runs": agg.runs, "confirmed": agg.confirmed, "faults_fired": agg.fired, "oracle_verdicts": agg.oracle_calls}));
+        for (k, v) in known_hits {
+            *known_all.entry(k).or_insert(0u64) += v;
+        }
+        for f in found {
+            n_viol += 1;
+            let (min_sc, min_v) = minimise(&f.outcome.scenario, prop, &mon, &f.violation.class, &f.outcome.result.decisions);
+            let (sc, v, minimised) = match min_v {
+                Some(v) => (min_sc, v, true),
+                None => (f.outcome.scenario.clone(), f.violation.clone(), false),
+            };
+            let mut sc = sc;
+            if !minimised {
+                sc.decisions = None;
+            }
+            let path = write_replay(prop, &sc, &v, minimised);
+            // replay in a fresh execution before it is believed
+            let confirmed = matches!(replay_file(&path, Some(mon.clone())), Ok((_, Some(v2), _)) if v2.class == v.class);
+            println!("violation: property={} invariant={} class={} cfg={} run={} minimised={} replay_confirmed={}", prop, v.inv, v.class, cfgname, f.outcome.run, minimised, confirmed);
+            println!("  {}", v.detail);
+            if confirmed {
+                println!("VIOLATION property={} replay={}", prop, path);
+                exit = 1;
+            } else {
+                println!("HARNESS-ERROR: violation did not replay; not reported as VIOLATION");
+                if exit == 0 {
+                    exit = 2;
+                }
+            }
+        }
+        merge(&mut total, agg);
+    }
+    for (k, n) in &known_all {
+        println!("KNOWN-FINDING: {} (hit {} times)", k, n);
+    }
+    if !total.harness_errors.is_empty() {
+        println!("harness errors: {:?}", total.harness_errors);
+        if exit == 0 {
+            exit = 2;
+        }
+    }
+    let wall = t0.elapsed().as_secs_f64();
+    let extra = serde_json::json!({ "configurations": per_cfg, "known_findings_hit": known_all });
+    write_evidence(prop, tier, seed, &total, wall, n_viol, extra, &props::rule_for(prop), &ASSUMPTIONS);
+    println!("{}: {} runs, {} oracle verdicts, {} distinct non-trivial cases, {:.1}s, exit {}", prop, total.runs, total.oracle_calls, total.nontrivial.len(), wall, exit);
+    exit
+}
+
+const ASSUMPTIONS: [&str; 5] = [
+    "R1 (the harness's Script VM) implements consensus and standardness rules faithfully; it is validated by self-test vectors and differential triage only, no Bitcoin Core is available offline",
+    "bitcoin::sighash::SighashCache digests, secp256k1 and bitcoin_hashes are correct (trusted base of R1)",
+    "rust-bitcoin Psbt combine/serialize/deserialize are correct",
+    "sampling, not proof: a clean batch is evidence about the sampled runs only",
+    "bounds: <=25 fragments, <=8 keys, <=8 tap leaves, <=3 inputs, <=6 signers, <=80 events, <=60 blocks per run",
+];
+
+fn merge(a: &mut Agg, b: Agg) {
+    a.runs += b.runs;
+    a.events += b.events;
+    a.blocks += b.blocks;
+    a.sim_seconds += b.sim_seconds;
+    a.attempts += b.attempts;
+    a.confirmed += b.confirmed;
+    a.oracle_calls += b.oracle_calls;
+    for (k, v) in b.fired {
+        *a.fired.entry(k).or_insert(0) += v;
+    }
+    for (k, v) in b.probes {
+        *a.probes.entry(k).or_insert(0) += v;
+    }
+    a.shapes.extend(b.shapes);
+    a.cases.extend(b.cases);
+    a.nontrivial.extend(b.nontrivial);
+    for s in b.samples {
+        if a.samples.len() < 4 {
+            a.samples.push(s);
+        }
+    }
+    a.harness_errors.extend(b.harness_errors);
+    a.digest = mssim::rng::mix(&[a.digest, b.digest]);
+    for (k, v) in b.by_kind {
+        *a.by_kind.entry(k).or_insert(0) += v;
+    }
+    for (k, v) in b.by_source {
+        *a.by_source.entry(k).or_insert(0) += v;
+    }
+}
